@@ -57,6 +57,22 @@ func Subset(r *hlib.Rand, xs []string) []string {
 	return out
 }
 
+// CAGroups draws a CA group list: unconstrained, or 1..n groups (single-element lists matter for `len > 0`).
+func CAGroups(r *hlib.Rand) []string {
+	if r.Chance(1, 3) {
+		return nil
+	}
+	n := Pick3(r)
+	perm := append([]string{}, GroupUniverse...)
+	for i := range perm {
+		j := i + r.Intn(len(perm)-i)
+		perm[i], perm[j] = perm[j], perm[i]
+	}
+	return perm[:n]
+}
+
+func Pick3(r *hlib.Rand) int { return hlib.Pick(r, 1, 1, 1, 2, 3, 6) }
+
 func Sec(s int64) time.Time { return time.Unix(s, 0) }
 
 // window picks a validity window around the synctest epoch.
@@ -89,7 +105,7 @@ func CANets(r *hlib.Rand, v6ok bool) []netip.Prefix {
 func LeafFields(r *hlib.Rand, cf Fields, issuerFp string, real bool) Fields {
 	version := hlib.Pick(r, 1, 2, 2)
 	f := Fields{Version: version, Curve: cf.Curve, IsCA: false, Issuer: issuerFp, Name: fmt.Sprintf("leaf%d", r.Intn(1000))}
-	perturb := r.Intn(16) // which single rule to break (most values: none)
+	perturb := r.Intn(12) // which single rule to break (most values: none)
 	// window
 	nb, na := cf.NotBefore.Unix()+int64(hlib.Pick(r, 0, 0, 1, 100)), cf.NotAfter.Unix()-int64(hlib.Pick(r, 0, 0, 1, 100))
 	if nb > na {
